@@ -5,3 +5,5 @@ open Model.SlicesGen
 #print axioms entrySliceRange_total
 #print axioms entrySliceRange_drop
 #print axioms difference_eq
+#print axioms updateClock_eq
+#print axioms addNextEntry_eq
